@@ -43,6 +43,7 @@ type engine struct {
 	timeoutMs          int
 	seed               int
 	workers            int
+	parallelHarness    int
 	loadSeconds        float64
 	fnTotals           map[string]int64
 	fnMu               sync.Mutex
@@ -259,14 +260,21 @@ func (e *engine) newRun(spec HarnessSpec) (*harnessRun, error) {
 		witnesses: map[string]Violation{}, witnessOK: map[string]bool{}, knownHits: map[*KnownFinding]bool{}}, nil
 }
 
-func (e *engine) newMachine(h *harnessRun, solver *Solver, prefix []Decision, replay *Violation) *machine {
-	m := &machine{eng: e, h: h, solver: solver, prefix: prefix, replay: replay,
+func (e *engine) newMachine(h *harnessRun, solver *Solver, item workItem, replay *Violation) *machine {
+	m := &machine{eng: e, h: h, solver: solver, prefix: item.prefix, replay: replay,
 		globals: map[*ssa.Global]*value{}, doneCh: make(chan struct{}),
 		fnCounts: map[*ssa.Function]*int64{}, nameCount: map[string]int{}, varByName: map[string]*Term{},
 		notes: map[string]*Term{}, mutexes: map[*value]*mutexState{}, wgs: map[*value]*wgState{}, pools: map[*value][]value{},
 		mayBeFull: map[*chanObj]bool{}, reached: map[string]bool{}, replayHit: map[string]bool{}, addrs: map[*value]uint64{},
 		idealRB: true, poolMode: 1, hashMode: 1,
 		clock: mkBV(64, 1_000_000_000_000),
+	}
+	if item.model != nil {
+		m.model = make(map[string]uint64, len(item.model))
+		for k, v := range item.model {
+			m.model[k] = v
+		}
+		m.evalCache = map[*Term]uint64{}
 	}
 	m.stepLimit = h.spec.StepLimit
 	if m.stepLimit == 0 {
@@ -276,8 +284,8 @@ func (e *engine) newMachine(h *harnessRun, solver *Solver, prefix []Decision, re
 }
 
 // runPath executes one path (prefix then first-choice exploration) and returns the finished machine.
-func (e *engine) runPath(h *harnessRun, solver *Solver, prefix []Decision, replay *Violation) *machine {
-	m := e.newMachine(h, solver, prefix, replay)
+func (e *engine) runPath(h *harnessRun, solver *Solver, item workItem, replay *Violation) *machine {
+	m := e.newMachine(h, solver, item, replay)
 	if solver != nil {
 		solver.Reset()
 	}
@@ -314,7 +322,7 @@ func (e *engine) explore(h *harnessRun, opts exploreOpts) {
 	t0 := time.Now()
 	var mu sync.Mutex
 	cond := sync.NewCond(&mu)
-	stack := [][]Decision{nil}
+	stack := []workItem{{}}
 	busy := 0
 	stop := false
 	maxViol := 3
@@ -340,12 +348,12 @@ func (e *engine) explore(h *harnessRun, opts exploreOpts) {
 				cond.Broadcast()
 				return
 			}
-			prefix := stack[len(stack)-1]
+			item := stack[len(stack)-1]
 			stack = stack[:len(stack)-1]
 			busy++
 			mu.Unlock()
 
-			m := e.runPath(h, solver, prefix, nil)
+			m := e.runPath(h, solver, item, nil)
 
 			mu.Lock()
 			busy--
@@ -393,6 +401,24 @@ func (e *engine) explore(h *harnessRun, opts exploreOpts) {
 			cond.Broadcast()
 		}
 	}
+	progressDone := make(chan struct{})
+	go func() {
+		tk := time.NewTicker(20 * time.Second)
+		defer tk.Stop()
+		for {
+			select {
+			case <-progressDone:
+				return
+			case <-tk.C:
+				mu.Lock()
+				h.mu.Lock()
+				fmt.Fprintf(os.Stderr, "  ... %s: %d paths done, %d pending, %d busy, %.0fs\n", h.name, h.paths, len(stack), busy, time.Since(t0).Seconds())
+				h.mu.Unlock()
+				mu.Unlock()
+			}
+		}
+	}()
+	defer close(progressDone)
 	var wg sync.WaitGroup
 	n := e.workers
 	if n < 1 {
@@ -413,7 +439,7 @@ func (e *engine) explore(h *harnessRun, opts exploreOpts) {
 
 // replayRecord re-executes a model concretely and reports whether the recorded event happens again.
 func (e *engine) replayRecord(h *harnessRun, rec *Violation) (bool, string) {
-	m := e.runPath(h, nil, nil, rec)
+	m := e.runPath(h, nil, workItem{}, rec)
 	key := "violation:" + rec.Label
 	if rec.Kind == "witness" {
 		key = "reach:" + rec.Label
